@@ -61,6 +61,7 @@ def run(ctx):
     closed_form_determinants(ctx, g)
     determinant_sign(ctx, g)
     echelon_driver(ctx, g)
+    padic_driver(ctx, g)
     ctx.clauses.append("gcdx is extended Euclid: r*A + s*B = +-gcd, t*A + u*B = 0, r*u - s*t = +-1 for every input (loop invariant decided on sampled states)")
     gx = ctx.body("geometry::traits::gcdx")
     ctx.scan([gx])
@@ -927,6 +928,86 @@ def echelon_driver(ctx, g):
         if got != {want} and not bad:
             bad = "can_divide(%d, %d) is %s" % (av, bv, sorted(got, key=str))
     ctx.ob("T4-int-can-divide", cd.name, "b != 0 && a / b * b == a", "ok" if not bad else "violation", "exact divisibility, false for a zero divisor" if not bad else bad)
+
+
+def padic_driver(ctx, g):
+    """Dixon lifting needs enough p-adic digits for the rational reconstruction to be unique: the step count is
+    ceil(2 * (log_delta + ln(golden ratio)) / ln(p)) with log_delta the sum of the log column norms without the smallest (Hadamard bound) - the
+    expression is evaluated in floating point on sample values and must agree with that formula; solve asks for it with (a, b, PRIME) in this
+    order and accumulates into matrices of b's shape (rows x columns of b)."""
+    import math, struct
+    ctx.clauses.append("p-adic lifting: step bound ceil(2 (log_delta + ln phi) / ln p) evaluated; called with (a, b, PRIME); accumulators have b's shape (T7/T4)")
+    nb = ctx.body("geometry::modular_solver::number_of_p_adic_steps_needed")
+    r = unov_deep(strip(norm(nb.local_origin(0), g)))
+    def fl(t, L, pv):
+        t = strip(t)
+        if t[0] == "int":
+            v = t[1]
+            if abs(v) > 2 ** 52:
+                return struct.unpack("<d", struct.pack("<Q", v & (2 ** 64 - 1)))[0]
+            return float(v)
+        if t[0] == "cast":
+            return fl(t[1], L, pv)
+        if t[0] == "param":
+            return float(pv)
+        if t[0] == "binop":
+            a, b_ = fl(t[2], L, pv), fl(t[3], L, pv)
+            if a is None or b_ is None:
+                return None
+            try:
+                return {"Add": a + b_, "Sub": a - b_, "Mul": a * b_, "Div": a / b_}.get(t[1])
+            except ZeroDivisionError:
+                return None
+        if t[0] == "call":
+            n = t[1].split("::")[-1]
+            if n == "sum":
+                return L
+            a = fl(t[2][0], L, pv) if t[2] else None
+            if a is None:
+                return None
+            try:
+                return {"ln": math.log, "sqrt": math.sqrt, "ceil": math.ceil}[n](a) if n in ("ln", "sqrt", "ceil") else None
+            except ValueError:
+                return None
+        return None
+    bad = None
+    for L, pv in ((10.0, 7), (50.0, 3037000493), (0.5, 2), (123.456, 9999991)):
+        got = fl(r, L, pv)
+        want = math.ceil(2.0 * (L + math.log((1.0 + math.sqrt(5.0)) / 2.0)) / math.log(pv))
+        # more digits than the bound are harmless, fewer make the reconstruction ambiguous
+        if got is None or got < want - 1e-9:
+            bad = bad or "for log_delta = %s and p = %s the step count is %s, below the bound %s" % (L, pv, got, want)
+    ctx.ob("T7-padic-step-bound", nb.name, "ceil(2 (log_delta + ln phi) / ln p)", "ok" if not bad else "violation",
+           "the step count reaches the Hadamard / golden-ratio bound (evaluated on 4 samples)" if not bad else bad)
+    sv = ctx.body("geometry::modular_solver::solve")
+    a_, b_ = ("param", 1, sv.debug.get(1, "")), ("param", 2, sv.debug.get(2, ""))
+    bad = None
+    st = [[strip(norm(sv.origin(x), g)) for x in t["args"]] for bi, t in sv.calls("number_of_p_adic_steps_needed")]
+    if len(st) != 1 or st[0][:2] != [a_, b_] or not (st[0][2][0] == "int" and is_prime(st[0][2][1])):
+        bad = "the step count is not asked for (a, b, PRIME)"
+    news = [[strip(norm(sv.origin(x), g)) for x in t["args"]] for bi, t in sv.calls("VecMatrix::<T>::new")]
+    def dim(t, which):
+        t = strip(t)
+        return (t[0] == "field" and strip(t[1]) == b_ and t[2] == which) or (is_call(t, which) and strip(t[2][0]) == b_)
+    if not bad and (len(news) != 2 or not all((dim(n[0], "nr_rows") and (dim(n[1], "nr_cols") or dim(n[1], "nr_columns"))) for n in news)):
+        bad = "the accumulator and the result are not created with (b.nr_rows(), b.nr_columns())"
+    ctx.ob("T4-padic-driver", sv.name, "steps(a, b, PRIME); shapes", "ok" if not bad else "violation", "step count for (a, b, PRIME); accumulator and result have the shape of b" if not bad else bad)
+    # field clear_col: the columns right of the pivot column are updated, all of them; the multiplier matrix over all its columns
+    for nm in ("<num_rational::Ratio<num_bigint::BigInt> as geometry::traits::Entry>::clear_col",
+               "geometry::modular_solver::<impl geometry::traits::Entry for geometry::prime_residue_classes::PrimeResidueClass<P>>::clear_col"):
+        cb = ctx.body(nm)
+        col = ("param", 1, cb.debug.get(1, ""))
+        rgs = []
+        for h, e, it in loops_in(cb):
+            if it is not None:
+                rg = range_of(cb, ("local", it, ""), g)
+                if rg:
+                    rgs.append((unov_deep(strip(rg[0])), strip(rg[1]), rg[2]))
+        oka = any(lo == ("binop", "Add", col, ("int", 1)) and not inc and is_call(hi, "nr_columns") for lo, hi, inc in rgs)
+        okx = any(eval_int(lo) == 0 and not inc and is_call(hi, "nr_columns") for lo, hi, inc in rgs)
+        ctx.ob("T4-field-clear-col-ranges", cb.name, "a: col + 1 .. columns; x: 0 .. columns", "ok" if oka and okx and len(rgs) == 2 else "violation",
+               "the row operation covers every column right of the pivot column and the whole row of the multiplier" if oka and okx and len(rgs) == 2 else
+               "the row operation does not run over col + 1 .. a.nr_columns() and 0 .. x.nr_columns(): %s" % [(show(lo, 1)[:24], show(hi, 1)[:24], inc) for lo, hi, inc in rgs])
 
 
 def stripcalls(t):
